@@ -59,7 +59,9 @@ impl ErrSpan {
         match self {
             ErrSpan::One(r)      => r.clone(),
             ErrSpan::Two([r, _]) => r.clone(),
-            ErrSpan::Many(r)     => r.first().unwrap().clone(),
+            // Errors that have no position in any one source (e.g., from linking)
+            // carry an empty list; they are reported at the start of the source.
+            ErrSpan::Many(r)     => r.first().cloned().unwrap_or(0..0),
         }
     }
 
